@@ -2,7 +2,9 @@ import Verif.Props.C20
 open Verif.Props.C20
 #print axioms crash_safe_partial
 #print axioms crash_safe_counterexample
+#print axioms crash_safe_parallel
 #print axioms frame
+#print axioms inputBytes_spec
 #print axioms done_dst
 #print axioms done_no_bak
 #print axioms bak_untouched
